@@ -481,3 +481,57 @@ def r16d(model: Model, rr: RuleResult):
         rr.ok("remaining = uniform_scale^-1 . scale . rest; uniform = uniform_scale then translate (so uniform . remaining = original)")
     else:
         rr.bad(d, d.node, f"the decomposition no longer recomposes to the original transform (compositions: {txt})", construct="_decompose_uniform_transform: compositions")
+
+
+FT_FIELD_MAP = {"centerX": "center[0]", "centerY": "center[1]", "Transform.xx": "transform[0]", "Transform.yx": "transform[1]", "Transform.xy": "transform[2]",
+                "Transform.yy": "transform[3]", "Transform.dx": "transform[4]", "Transform.dy": "transform[5]"}
+
+
+def fonttools_gettransform_branches():
+    """PaintFormat name -> statements of the matching branch of fontTools' Paint.getTransform (the specification oracle)."""
+    src = (otspec._tables_dir() / "otTables.py").read_text()
+    tree = ast.parse(src)
+    for cls in tree.body:
+        if isinstance(cls, ast.ClassDef) and cls.name == "Paint":
+            for fn in cls.body:
+                if isinstance(fn, ast.FunctionDef) and fn.name == "getTransform":
+                    out = {}
+                    node = fn.body[0]
+                    while isinstance(node, ast.If):
+                        t = norm(node.test)
+                        if t.startswith("self.Format == PaintFormat."):
+                            out[t.split("PaintFormat.")[1]] = node.body
+                        node = node.orelse[0] if len(node.orelse) == 1 else None
+                    if len(out) < 10:
+                        raise AnalysisError("fontTools Paint.getTransform: fewer than 10 branches parsed")
+                    return out
+    raise AnalysisError("fontTools Paint.getTransform not found")
+
+
+@RULES.rule("C16", "R16f", "each transform paint's gettransform denotes the same affine as fontTools' Paint.getTransform (algebraic normal forms)", floor=10)
+def r16f(model: Model, rr: RuleResult):
+    from ..affsym import AffEval, same, show
+    from ..fold import Unfoldable
+    classes = extract(model)
+    oracle = fonttools_gettransform_branches()
+    for name, body in sorted(oracle.items()):
+        pc = classes.get(name)
+        if pc is None or pc.gettransform_fn is None:
+            rr.bad(model.mod("paint"), model.mod("paint").tree, f"paint.{name} has no gettransform of its own although fontTools defines a transform for this format",
+                   construct=f"paint.{name}.gettransform missing")
+            continue
+        try:
+            want = AffEval(None, None, lambda f: FT_FIELD_MAP.get(f, f)).run(body)
+        except Unfoldable as u:
+            raise AnalysisError(f"fontTools getTransform branch {name}: {u}")
+        try:
+            got = AffEval(model, pc.gettransform_fn).run(pc.gettransform_fn.body)
+        except Unfoldable as u:
+            raise AnalysisError(f"paint.{name}.gettransform: {u}")
+        diff = same(got, want)
+        if diff is None:
+            rr.ok(f"{name}.gettransform == fontTools getTransform: ({', '.join(show(x) for x in got)})")
+        else:
+            rr.bad(pc.gettransform_fn, pc.gettransform_fn.node, f"{name}.gettransform differs from the transform the format denotes (fontTools Paint.getTransform): {diff}. "
+                   f"Everything that accumulates transforms while walking the paint tree (glyf components, COLRv0 composites, clip boxes, COLR->SVG) is displaced",
+                   construct=f"{name}.gettransform: {diff}")
